@@ -174,6 +174,28 @@ def long_line_faults(rng, quick):
     return out
 
 
+def hostile_paths(quick):
+    """every path over the characters the path and tag-name code looks at ('/', '.', '{', '}', '_', '%', a letter, a blank in
+    quotes), as the path of a method, of a URL block and of a JSON-RPC URL, with and without a Tags directive"""
+    import itertools
+    J = "JSIGHT 0.3\n"
+    out = []
+    alpha = ["/", ".", "a", "{", "}", "_", "%"]
+    paths = set()
+    for n in range(0, 4 if quick else 5):
+        for t in itertools.product(alpha, repeat=n):
+            paths.add("/" + "".join(t))
+    paths |= {"/./.", "/././.", "/../..", "/a/./b", "/.a", "/a.", "/..a", "/%2e", "/%2F", "/{a}/.", "/./{a}", "/_/._", "//", "///", "/ /", "/a b"}
+    for pth in sorted(paths):
+        q = '"%s"' % pth if " " in pth else pth
+        out.append([("a.jst", J + "GET %s\n  200 any\n" % q)])
+        if len(pth) <= 3 or not quick:
+            out.append([("a.jst", J + "URL %s\n  GET\n    200 any\n" % q)])
+            out.append([("a.jst", J + "TAG @t\nGET %s\n  Tags @t\n  200 any\n" % q)])
+            out.append([("a.jst", J + "URL %s\n  Protocol json-rpc-2.0\n  Method m\n    Params\n      {}\n" % q)])
+    return out
+
+
 LIB_FAULT_ID = "C01/schema-library-runtime-fault-text"
 
 
@@ -245,6 +267,7 @@ def run(res, tier, seed, replay):
         projects += sm
         projects += type_chain_projects(rng, quick)
         projects += long_line_faults(rng, quick)
+        projects += hostile_paths(quick)
         from . import c07 as M7
         for items, n, what in M7.cycle_documents(rng, quick):
             projects.append([("a.jst", M7.render(items)[0])])
